@@ -380,9 +380,16 @@ class Stream(object):
         '''
         # Transfer coding names are case-insensitive and chunked is the
         # last coding applied. rfc7230 section 3.3.1, section 4.
+        # Several field lines are equivalent to one comma separated list.
+        if 'Transfer-Encoding' in response.fields:
+            transfer_encoding = ','.join(
+                response.fields.get_list('Transfer-Encoding'))
+        else:
+            transfer_encoding = ''
+
         chunked_match = re.match(
             r'(.*,)?[ \t]*chunked[ \t]*($|;)',
-            response.fields.get('Transfer-Encoding', ''),
+            transfer_encoding,
             re.IGNORECASE
         )
 
